@@ -81,6 +81,16 @@ Theorem C18_plain_is_ordinary : forall matches body dyn_files children c E dyn d
   pres_of (run_task body c E dyn desel w (resolve matches w t) f).
 Proof. exact plain_is_ordinary. Qed.
 
+(* ordering also holds for tasks generated earlier in the same build: when a task is handed out,
+   every task of the project as it is at that moment that declares something it reads has been
+   handed out before (so a declared task consuming products of generated tasks waits for them) *)
+Theorem C18_pick_after_current_producers :
+  forall is_word lower c pref ts0 s0 b h i,
+  PI is_word lower c ts0 s0 b h -> pick (pb_sorter b) pref = Some i ->
+  forall u t, In u (pb_tasks b) -> In t (pb_tasks b) -> tid (base t) = i -> feeds u t ->
+  In (tid (base u)) h.
+Proof. exact pick_after_current_producers. Qed.
+
 (* "each at most once": no event occurs twice in a build - declared tasks, generators (F2,
    repaired) and generated tasks, across every re-creation of graph and scheduler *)
 Theorem C18_each_at_most_once :
